@@ -65,6 +65,21 @@ func (w *World) expandStructural() {
 			add(&EBinary{"==>", &EBinary{"!=", r, &ENil{}}, e}, "field:"+f.Name(), false)
 		}
 		add(&EBinary{"==>", &EBinary{"!=", r, &ENil{}}, &ECall{"iscopy", []Expr{res, r}}}, "iscopy", true)
+		// the copy is a new object, and so is everything mutable it points to (pointer and map fields):
+		// a later in-place change of the copy (Tasks.Merge sets names, merges vars) must not reach the original
+		add(&EBinary{"==>", &EBinary{"!=", r, &ENil{}}, &ECall{"fresh", []Expr{res}}}, "fresh", false)
+		for i := 0; i < st.NumFields(); i++ {
+			f := st.Field(i)
+			if _, skip := fc.Skip[f.Name()]; skip {
+				continue
+			}
+			switch f.Type().Underlying().(type) {
+			case *types.Pointer, *types.Map:
+				a, b := &EField{res, f.Name()}, &EField{r, f.Name()}
+				cond := &EBinary{"&&", &EBinary{"!=", r, &ENil{}}, &EBinary{"!=", b, &ENil{}}}
+				add(&EBinary{"==>", cond, &EBinary{"&&", &EBinary{"!=", a, b}, &ECall{"fresh", []Expr{a}}}}, "fresh:"+f.Name(), false)
+			}
+		}
 	}
 }
 
